@@ -700,6 +700,12 @@ def correspondence(ctx, cases, kinds, ok, want_tokens=True, outcome_only=False, 
         ctx.tie_broken(tag + "-correspondence", dis[:5])
     ctx.note(tag + "_disagreements", len(dis))
     ctx.note(tag + "_outcome_distribution", dist)
+    kd = {}
+    for k, a in zip(kinds, impl):
+        key = k.split(":")[0] + ":" + dc.outcome_class(a).split(":")[0]
+        kd[key] = kd.get(key, 0) + 1
+    ctx.note(tag + "_stream_by_outcome", kd)
+    ctx.note(tag + "_grammar_coverage", dc.grammar_coverage([a for a, l in zip(asts, impl) if l.startswith("ok ")]))
     if op != "parse":
         return impl, asts
     # keyword reclassification
